@@ -618,7 +618,18 @@ pub fn restrict(full: &Font, q: &Req, u: &Ufo) -> Font {
     if q.mask & 32 == 0 {
         f.images = Default::default();
     }
-    f.layers.retain(|l| selected(q, l.name(), &written(l.name(), &l.path().to_string_lossy())));
+    // `remove` (not `retain`): it also releases the directory in the index of taken directories,
+    // which is what a load that never saw the layer leaves behind
+    let drop: Vec<String> = f
+        .layers
+        .iter()
+        .skip(1)
+        .filter(|l| !selected(q, l.name(), &written(l.name(), &l.path().to_string_lossy())))
+        .map(|l| l.name().to_string())
+        .collect();
+    for n in &drop {
+        f.layers.remove(n);
+    }
     let d = f.layers.default_layer();
     // "default only" means the default layer, however its directory is spelt
     let default_selected = q.all || q.default || selected(q, d.name(), &written(d.name(), "glyphs"));
@@ -633,6 +644,43 @@ pub fn restrict(full: &Font, q: &Req, u: &Ufo) -> Font {
         d.lib = Plist::new();
     }
     f
+}
+
+fn swap_case(s: &str) -> String {
+    s.chars().map(|c| if c.is_lowercase() { c.to_ascii_uppercase() } else { c.to_ascii_lowercase() }).collect()
+}
+/// The same short script on a loaded font, to observe what the getters do not show (the index of
+/// taken layer directories / glif names): layers created and renamed to the names of the layers
+/// that were left out (and case variants), glyphs of left-out layers inserted.  Returns every
+/// layer's name, directory and glyph file names afterwards.
+pub fn post_load_script(f: &Font, u: &Ufo, q: &Req) -> Vec<(String, String, Vec<(String, String)>)> {
+    let mut f = f.clone();
+    let left_out: Vec<&LayerU> = u.layers.iter().filter(|l| l.dir != "glyphs" && !selected(q, &l.name, &l.written)).collect();
+    for l in &left_out {
+        let _ = f.layers.new_layer(&l.name);
+        let _ = f.layers.get_or_create_layer(&swap_case(&l.name));
+        for (gn, _, _) in &l.glyphs {
+            if norad::Name::new(gn).is_ok() {
+                f.default_layer_mut().insert_glyph(norad::Glyph::new(gn));
+                f.default_layer_mut().insert_glyph(norad::Glyph::new(&swap_case(gn)));
+            }
+        }
+    }
+    // rename a loaded non-default layer to a name derived from a left-out layer's directory
+    let loaded_nd: Option<String> = f.layers.iter().skip(1).map(|l| l.name().to_string()).find(|n| !left_out.iter().any(|l| l.name == *n || swap_case(&l.name) == *n));
+    if let (Some(n), Some(l)) = (loaded_nd, left_out.first()) {
+        let target = l.dir.strip_prefix("glyphs.").unwrap_or(&l.dir).replace('_', "");
+        let _ = f.layers.rename_layer(&n, &target, false);
+    }
+    f.layers
+        .iter()
+        .map(|l| {
+            let mut g: Vec<(String, String)> =
+                l.iter().filter_map(|g| l.get_path(g.name()).map(|p| (g.name().to_string(), p.to_string_lossy().to_string()))).collect();
+            g.sort();
+            (l.name().to_string(), l.path().to_string_lossy().to_string(), g)
+        })
+        .collect()
 }
 
 pub struct Out {
@@ -797,6 +845,24 @@ pub fn main(a: &Args) {
                             }
                             if f1.layers.default_layer().path() != Path::new("glyphs") {
                                 why.push("no default layer at the front".into());
+                            }
+                            // the state the getters do not show: both fonts must react alike to the
+                            // same edits (directories and glif names assigned afterwards)
+                            let a = post_load_script(f1, &u, &q);
+                            let b = post_load_script(&want, &u, &q);
+                            if a != b {
+                                let d: Vec<String> = a
+                                    .iter()
+                                    .zip(b.iter())
+                                    .filter(|(x, y)| x != y)
+                                    .map(|(x, y)| format!("layer {:?}: directory {} vs {}, files {:?} vs {:?}", x.0, x.1, y.1, x.2, y.2))
+                                    .take(3)
+                                    .collect();
+                                why.push(format!(
+                                    "after the same edits (layers named like the left-out ones, their glyphs inserted) the partially loaded font and the restricted full load differ: {}{}",
+                                    d.join("; "),
+                                    if a.len() != b.len() { " (different number of layers)" } else { "" }
+                                ));
                             }
                         }
                     }
